@@ -26,6 +26,7 @@ Definition ET (t : Uint63.int) (p hid : N) : event := ETun (n_of_int t) p hid.
 Definition EU (t : Uint63.int) (p ip port hid : N) : event := EUapi (n_of_int t) p (ip, port) hid.
 Definition SH (p : N) (d : Uint63.int) : event := EShiftHs p (n_of_int d).
 Definition ERS (t : Uint63.int) : event := ERestart (n_of_int t).
+Definition ESN (p : N) : event := ESetNonce p.
 
 Definition OD (kind ip port peer : N) : oobs := {| o_kind := kind; o_to := (ip, port); o_peer := peer |}.
 Definition OB (outs : list oobs) (eps : list (N * option addr)) : sobs := {| s_outs := outs; s_eps := eps |}.
@@ -118,7 +119,7 @@ Definition predict_case (k : case) := predict (init_state k) (c_steps k).
     9 transport accepted; 10 transport replayed / out of window; 11 transport bad tag; 12 transport wrong
     index or dead session; 13 batch with more than one element; 14 TUN -> initiation; 15 TUN -> transport;
     16 TUN staged only; 17 UAPI endpoint=; 18 steps in which an endpoint moved; 19 confirming element released staged packets;
-    20 restart (Down/Up)] *)
+    20 restart (Down/Up); 21 send counter pushed over RekeyAfterMessages; 22 TUN packet -> transport and rekey initiation] *)
 
 Fixpoint bump (l : list N) (i : nat) : list N :=
   match l, i with
@@ -178,12 +179,14 @@ Definition classify (st : dstate) (e : event) : list nat :=
   | ETun _ _ _ =>
       match outs with
       | OInit _ _ _ :: _ => [14%nat]
-      | OTransport _ _ :: _ => [15%nat]
+      | OTransport _ _ :: _ =>
+          15%nat :: (if existsb (fun o => match o with OInit _ _ _ => true | _ => false end) outs then [22%nat] else [])
       | _ => [16%nat]
       end
   | EUapi _ _ _ _ => [17%nat]
   | EShiftHs _ _ => []
   | ERestart _ => [20%nat]
+  | ESetNonce _ => [21%nat]
   end.
 
 Fixpoint stats_steps (st : dstate) (tr : list (event * sobs)) (acc : list N) : list N :=
@@ -193,4 +196,4 @@ Fixpoint stats_steps (st : dstate) (tr : list (event * sobs)) (acc : list N) : l
   end.
 
 Definition stats (ks : list case) : list N :=
-  fold_left (fun acc k => stats_steps (init_state k) (c_steps k) acc) ks (repeat 0 21).
+  fold_left (fun acc k => stats_steps (init_state k) (c_steps k) acc) ks (repeat 0 23).
